@@ -11,7 +11,10 @@ from .. import core
 PATH = os.path.join(core.VERIF, "matrix", "text.json")
 INT_TYPES = [("signed char", "i8"), ("unsigned char", "u8"), ("short", "i16"), ("unsigned short", "u16"), ("int", "i32"), ("unsigned", "u32"), ("long", "i64"), ("unsigned long", "u64"),
              ("vf::i128", "i128"), ("vf::u128", "u128"), ("cnl::wide_integer<200,int>", "wide200"), ("cnl::wide_integer<103,int>", "wide103"), ("cnl::wide_integer<256,int>", "wide256"), ("cnl::wide_integer<512,std::int64_t>", "wide512"), ("cnl::elastic_integer<20>", "elastic20"),
-             ("cnl::overflow_integer<int,cnl::saturated_overflow_tag>", "overflow_i32"), ("cnl::wide_integer<100,unsigned>", "wide100u")]
+             ("cnl::overflow_integer<int,cnl::saturated_overflow_tag>", "overflow_i32"), ("cnl::wide_integer<100,unsigned>", "wide100u"),
+             # wrappers whose representation is a character type: the numeral, not the character, must be printed
+             ("cnl::elastic_integer<7,signed char>", "elastic7c"), ("cnl::overflow_integer<signed char,cnl::saturated_overflow_tag>", "overflow_i8"),
+             ("cnl::rounding_integer<unsigned char,cnl::nearest_rounding_tag>", "rounding_u8"), ("cnl::wide_integer<7,signed char>", "wide7c"), ("cnl::elastic_integer<3,unsigned char>", "elastic3uc")]
 REPS = [("signed char", "i8"), ("unsigned char", "u8"), ("short", "i16"), ("unsigned short", "u16"), ("int", "i32"), ("unsigned", "u32"), ("long", "i64"), ("unsigned long", "u64")]
 
 RULE13 = ("kernel = integer type (built-in 8..128 bit, wide_integer, elastic_integer, overflow_integer; bases 2,3,8,10,16,36) or scaled_integer<Rep, power<E,R>> from the frozen universe matrix/text.json (fixed core + VERIF_SEED sample). "
@@ -221,7 +224,10 @@ def judge(res13, res14, job):
                 t14["classes"]["exactness_demanded"] = t14["classes"].get("exactness_demanded", 0) + 1
                 nt = nt or nsig >= 15
                 if d != 0:
-                    viol(t14, "not_exact_although_it_fits", dict(w14, exp=("-" if v < 0 else "") + full))
+                    # defect model (KF-C14-01): an integer value beyond the 64-bit significand whose 18 significant digits would fit it once the
+                    # trailing zeros are moved into the exponent - descale multiplies by the radix first and then has to drop a digit
+                    big = v.denominator == 1 and abs(v) > MAXSIG
+                    viol(t14, "not_exact_although_it_fits" + (":integer_value_exceeds_the_64_bit_significand" if big else ""), dict(w14, exp=("-" if v < 0 else "") + full))
                     continue
             if d != 0:
                 nt = True
@@ -307,7 +313,8 @@ def judge(res13, res14, job):
             if full is not None and nsig <= 18:
                 pr = parse_text(txt)
                 if not (pr and pr[0] == v):
-                    viol(t14, "fixed_capacity_text_not_exact_for_integer_valued_or_decimal_type:" + form,
+                    big = v.denominator == 1 and abs(v) > MAXSIG
+                    viol(t14, "fixed_capacity_text_not_exact_for_integer_valued_or_decimal_type:" + form + (":integer_value_exceeds_the_64_bit_significand" if big else ""),
                          {"in": "%s value(rep)=%d %s capacity=%d" % (k["k"], rep, form, k["capacity"]), "exp": ("-" if v < 0 else "") + full, "obs": txt})
                 else:
                     t14["classes"]["fixed_capacity_exactness_demanded"] = t14["classes"].get("fixed_capacity_exactness_demanded", 0) + 1
